@@ -120,16 +120,17 @@ fn packing(w: u32, r: &mut Report) {
 fn u8_add(ch: u8, delta: i32, r: &mut Report) {
     r.eval();
     let exp = (ch as i64 + delta as i64).clamp(0, 255) as u8;
+    let nd = delta.checked_neg().unwrap_or(i32::MAX); // second component: the opposite delta (i32::MIN has none)
     for dim4 in [false, true] {
         let got = caught(|| {
-            if dim4 { let c: Color4 = rgba(ch, 7, 250, ch); c.add(&Vector::from([delta, -delta, delta, 0])).0.to_vec() }
-            else { let c: Color3 = rgb(ch, 7, 250); c.add(&Vector::from([delta, -delta, delta])).0.to_vec() }
+            if dim4 { let c: Color4 = rgba(ch, 7, 250, ch); c.add(&Vector::from([delta, nd, delta, 0])).0.to_vec() }
+            else { let c: Color3 = rgb(ch, 7, 250); c.add(&Vector::from([delta, nd, delta])).0.to_vec() }
         });
-        let e2 = (7i64 - delta as i64).clamp(0, 255) as u8;
+        let e2 = (7i64 + nd as i64).clamp(0, 255) as u8;
         let e3 = (250i64 + delta as i64).clamp(0, 255) as u8;
         let ok = matches!(&got, Ok(g) if g[0] == exp && g[1] == e2 && g[2] == e3 && (!dim4 || g[3] == ch));
         if !ok {
-            r.violation(format!("u8-add|{}|ch={ch} delta={delta}", if delta < 0 { "neg" } else { "pos" }), format!("({ch},7,250) + ({delta},{},{delta}) = {got:?}, expected ({exp},{e2},{e3})", -delta), obj! {"kind" => "add", "ch" => ch, "delta" => delta});
+            r.violation(format!("u8-add|{}|ch={ch} delta={delta}", if delta < 0 { "neg" } else { "pos" }), format!("({ch},7,250) + ({delta},{nd},{delta}) = {got:?}, expected ({exp},{e2},{e3})"), obj! {"kind" => "add", "ch" => ch, "delta" => delta});
         } else if exp as i64 != ch as i64 + delta as i64 { r.nontrivial(); }
     }
     // sub is the inverse where nothing saturates
@@ -212,6 +213,17 @@ fn main() {
             _ => [[lo, lo, hi], [(lo + eps).min(hi), lo, hi]], // blue
         };
         for p in pts { f32_rgb_roundtrip(p, r); }
+        // the same boundary colours with each channel moved by 1, 2 and 4 ulps either way (where that stays in range):
+        // two channels that differ in the last bits only put the hue within rounding of a sextant boundary (or of 1.0)
+        if (i % m) % 8 == 0 && (i / m % m) % 8 == 0 {
+            for ch in 0..3 { for d in [-4i32, -2, -1, 1, 2, 4] {
+                let mut q = pts[0];
+                let nb = f32::from_bits((q[ch].to_bits() as i32 + d).max(0) as u32);
+                if !(0.0..=1.0).contains(&nb) { continue; }
+                q[ch] = nb;
+                f32_rgb_roundtrip(q, r);
+            }}
+        }
     }));
     // float HSL grid: h in k/96 and k/6 +- ulps, s,l grids
     let mut hs: Vec<f32> = (0..=96).map(|k| k as f32 / 96.0).collect();
@@ -273,7 +285,7 @@ fn main() {
         rep.merge(par_range(&cfg, 1 << 32, |i, r| packing(i as u32, r)));
     }
     // saturating add
-    let deltas: Vec<i32> = (-300..=300).chain([-100000, 100000, i32::MAX - 255, i32::MIN + 255, 65536, -65536]).collect();
+    let deltas: Vec<i32> = (-300..=300).chain([-100000, 100000, i32::MAX - 255, i32::MIN + 255, 65536, -65536, i32::MAX, i32::MAX - 1, i32::MAX - 254, i32::MIN, i32::MIN + 1]).collect();
     let nd = deltas.len() as u64;
     rep.merge(par_range(&cfg, 256 * nd, |i, r| u8_add((i % 256) as u8, deltas[(i / 256) as usize], r)));
     // float -> u8 clamp
@@ -281,6 +293,6 @@ fn main() {
     rep.merge(par_range(&cfg, lat.len() as u64, |i, r| to_u8_clamp(lat[i as usize], r)));
     rep.sample(0, || obj! {"u8_rgb" => vec![255u8, 0, 128], "f32_rgb" => vec![0.8f32, 1.0, 0.0], "f32_hsl" => vec![0.2f32, 1.0, 0.5], "word" => "0x12345678", "add" => "(200,7,250)+(100,-100,100)"});
     rep.finish(&cfg, "exploration",
-        "all 2^24 RGB8 -> HSL -> RGB (<=8/255), all 2^24 HSL8 -> RGB (total), float RGB grid n^3 plus the six sextant-boundary surfaces (on and one step off) -> HSL -> RGB (<=1e-4, in range, grays), decimal k/100 grids for both directions, grays and near-grays at magnitudes 1e-45..1, near-grays with chroma 1e-6..5e-3 around 33 gray levels, float HSL grid (hue k/96, k/1000+.0005, k/6 +-2ulp; s,l grids) -> RGB in range and hue 1 == hue 0, packed-word byte order for all 2^32 RGBA words (quick: 64^4 lattice), u8 saturating add for every channel x delta in -300..300 and large deltas, float->u8 clamp lattice incl. NaN/inf. non-trivial = chromatic colour / saturating sum / out-of-range channel.",
-        &["float tolerance 1e-4 and 8/255 as stated", "float channel ranges are judged exactly (0 <= x <= 1, no slack)", "i32 deltas within +-(2^31-256) for saturating add"]);
+        "all 2^24 RGB8 -> HSL -> RGB (<=8/255), all 2^24 HSL8 -> RGB (total), float RGB grid n^3 plus the six sextant-boundary surfaces (on, one step off, and with single channels moved by 1-4 ulps) -> HSL -> RGB (<=1e-4, in range, grays), decimal k/100 grids for both directions, grays and near-grays at magnitudes 1e-45..1, near-grays with chroma 1e-6..5e-3 around 33 gray levels, float HSL grid (hue k/96, k/1000+.0005, k/6 +-2ulp; s,l grids) -> RGB in range and hue 1 == hue 0, packed-word byte order for all 2^32 RGBA words (quick: 64^4 lattice), u8 saturating add for every channel x delta in -300..300 and large deltas up to i32::MIN / i32::MAX, float->u8 clamp lattice incl. NaN/inf. non-trivial = chromatic colour / saturating sum / out-of-range channel.",
+        &["float tolerance 1e-4 and 8/255 as stated", "float channel ranges are judged exactly (0 <= x <= 1, no slack)", "saturating add judged for every i32 delta class incl. i32::MIN / i32::MAX"]);
 }
